@@ -23,7 +23,7 @@ REPO = os.environ.get("RXVC_REPO", "/repo")  # the tree under test (the checks r
 if REPO not in sys.path:
     sys.path.insert(0, REPO)
 
-BEHAVIOURS = ["plain", "unsub_self_on_next", "unsub_other_on_next", "sub_other_on_next", "raise_on_next", "dispose_on_error"]
+BEHAVIOURS = ["plain", "unsub_self_on_next", "unsub_other_on_next", "sub_other_on_next", "raise_on_next", "dispose_on_error", "dispose_on_next"]
 # element values: 1 and True compare equal and are different values (a subject that compares elements instead of keeping them shows here); None is falsy
 OPS = [("sub", 0), ("sub", 1), ("unsub", 0), ("unsub", 1), ("next", 1), ("next", True), ("next", None), ("error",), ("error_falsy",), ("completed",), ("dispose",)]
 
@@ -66,6 +66,9 @@ class Rec:
             self.driver.sub(2)
         elif b == "raise_on_next":
             raise Boom()
+        elif b == "dispose_on_next":
+            # the first observer disposes the subject from inside its on_next callback: the broadcast in progress still reaches the others
+            self.driver.do(("dispose",))
 
     def on_error(self, e):
         self.log.append(("E", type(e).__name__))
